@@ -6,6 +6,11 @@ import glob
 class D: pass
 D.CHECKS = {os.path.basename(f)[:-5]: json.load(open(f)) for f in sorted(glob.glob(os.path.join(here, "..", "manifest.d", "C*.json")))}
 D.NOT_APPLICABLE = json.load(open(os.path.join(here, "..", "manifest.d", "not_applicable.json")))
+# only checks the coordinator has seen pass on the unchanged tree are registered (manifest.d/enabled.json)
+_en = os.path.join(here, "..", "manifest.d", "enabled.json")
+if os.path.exists(_en):
+    _ids = set(json.load(open(_en)))
+    D.CHECKS = {k: v for k, v in D.CHECKS.items() if k in _ids}
 props = [json.loads(l) for l in open(os.path.join(here, "..", "properties.jsonl"))]
 ids = [p["id"] for p in props]
 checks = []
